@@ -105,12 +105,22 @@ theorem arg_value_at_call_site (env : Env) (r : Resolver) (p : String) (ps : Lis
     bindArgs env r (p :: ps) (.expr e :: as) = .ok ((p, .int v) :: rest) := by
   simp [bindArgs, hv, hr]
 
-/-- an argument that names a label defined later is deferred: it becomes a `SymbolNode` of the macro scope -/
+/-- an argument that names a label defined later is deferred: it becomes an `ArgumentNode` of the macro scope -/
 theorem deferred_arg (env : Env) (r : Resolver) (p : String) (ps : List String) (e : PExpr) (as : List MArg)
     (x : String) (hv : evalP env r e = .error (.symbolNotDefined x)) (rest : List (String × Bound))
     (hr : bindArgs env r ps as = .ok rest) :
     bindArgs env r (p :: ps) (.expr e :: as) = .ok ((p, .deferred e) :: rest) ∧
-    deferredNodes ((p, Bound.deferred e) :: rest) = Node.symbol p e :: deferredNodes rest := by
+    deferredNodes ((p, Bound.deferred e) :: rest) = Node.argSymbol p e :: deferredNodes rest := by
   simp [bindArgs, hv, hr, deferredNodes]
+
+/-- **a deferred argument is evaluated at the call site too** (repair of the known finding C09-deferred-capture): when the
+    passes reach the `ArgumentNode` inside the application's scope, its expression is evaluated with the *parent* of that
+    scope current — the scope the macro was applied in — and the parameter is bound in the application's scope; the
+    parameters already bound in the application's scope cannot capture names of the argument -/
+theorem deferred_arg_at_call_site (env : Env) (r : Resolver) (pc : Address) (p : String) (e : PExpr) (par : Nat) (v : Int)
+    (hp : r.cur.parent = some par)
+    (hv : evalP env { r with current := par } e = .ok v) :
+    pcAfter env (.argSymbol p e) r pc = .ok (r.addSymbol p v, pc) := by
+  simp [pcAfter, hp, hv]
 
 end A816.C09
